@@ -1512,6 +1512,15 @@ As a workaround use x.as_expr() %s y.as_expr()""" % op)
 
         return self.__rtruediv__(x, floor=True)
 
+    def _sum_units(self, ret, cls, x):
+        """A sum has the units of its operands (not the class default)."""
+
+        for operand in (self, x):
+            if operand.__class__ is cls and operand.sympy != 0:
+                ret.units = operand.units
+                break
+        return ret
+
     def __add__(self, x):
         """Add."""
 
@@ -1527,7 +1536,7 @@ As a workaround use x.as_expr() %s y.as_expr()""" % op)
             assumptions['omega'] = x.omega
 
         result = self.sympy + x.sympy
-        return cls(result, **assumptions)
+        return self._sum_units(cls(result, **assumptions), cls, x)
 
     def __radd__(self, x):
         """Reverse add."""
@@ -1550,7 +1559,7 @@ As a workaround use x.as_expr() %s y.as_expr()""" % op)
             return -x + self
 
         cls, self, x, assumptions = self.__compat_add__(x, '-')
-        return cls(self.sympy - x.sympy, **assumptions)
+        return self._sum_units(cls(self.sympy - x.sympy, **assumptions), cls, x)
 
     def __rsub__(self, x):
         """Reverse subtract."""
